@@ -157,6 +157,10 @@ func (e *reqEnv) consumer(c int, nops int) {
 			}
 			if !ok {
 				// already complete: nothing was registered
+				if t.Pieces.SimState(i) == 2 {
+					rc.Fail("C10", "request-refused", "while-hashing", "Request(%d) reported nothing to do and registered nothing while the piece was still being hashed: if the hash fails nobody waits for it, if it succeeds nobody is woken", i)
+					return
+				}
 				if ch != nil {
 					rc.Fail("C10", "request", "channel-without-registration", "Request(%d) returned a channel but reported nothing requested", i)
 				}
@@ -651,7 +655,26 @@ func lifecycleMain(rc *RunCtx) {
 				protocol.HandshakeResult{Hash: hash.Hash(spec.InfoHash), Id: hash.Hash(drawBytes(st, 20))}, nil)
 		})
 	}
-	if st.Bool(1, 3) {
+	if st.Bool(1, 4) {
+		// aimed: delete the torrent while it holds no data at all and
+		// requests are outstanding: the answers arrive at a deleted torrent
+		if simrt.AwaitStep(func() bool {
+			if t.Pieces.SimCount() != 0 { // (the unlocked counter: this runs on the scheduler's goroutine)
+				return false
+			}
+			for _, sp := range t.SimPeers() {
+				if len(sp.SimOutstanding()) > 0 {
+					return true
+				}
+			}
+			return false
+		}, killAt+time.Millisecond) {
+			simrt.Probe("kill-aimed-at-an-empty-torrent-with-requests-outstanding")
+			for n := st.Choice(4); n > 0; n-- {
+				simrt.Y(-1)
+			}
+		}
+	} else if st.Bool(1, 3) {
 		// aimed: delete the torrent while one of its pieces is being hashed
 		if simrt.AwaitStep(func() bool {
 			for i := 0; i < min(spec.Geo.NPieces, 128); i++ {
